@@ -37,7 +37,8 @@ func (r *Rng) Pick(xs []string) string  { return xs[r.Intn(len(xs))] }
 const CanonicalDoc = `{"nums":[3,1,2,2,-5,10.5],"strs":["b","a","c","a","é"],` +
 	`"objs":[{"k":3,"s":"c","t":[1]},{"k":1,"s":"a","t":[2,3]},{"k":2,"s":"b","t":[]},{"k":1,"s":"a2","t":null}],` +
 	`"mixed":[{"k":1},{"k":"x"},{"k":2},{"k":0}],"mixeds":[{"k":"b"},{"k":"a"},{"k":1},{"k":"c"}],` +
-	`"nested":[[1,2],[3],[],[4,[5]]],"o1":{"a":1,"b":{"c":[1,2]}},"o2":{"b":2,"z":[9]},` +
+	`"nested":[[1,2],[3],[],[4,[5]]],"grid":[[{"k":2,"s":"b","t":[1]},{"k":1,"s":"a","t":[]}],[{"k":3,"s":"c","t":[2,3]}],[]],` +
+	`"tree":{"name":"r","kids":[{"name":"a","kids":[{"name":"b","kids":[]}]},{"name":"c","kids":[]}]},"o1":{"a":1,"b":{"c":[1,2]}},"o2":{"b":2,"z":[9]},` +
 	`"s":"héllo","n":-3.5,"t":true,"z":null,"e":[],"eo":{}}`
 
 func arrLen(r *Rng) int {
@@ -72,7 +73,7 @@ func num(r *Rng) float64 {
 	}
 }
 
-var words = []string{"a", "b", "c", "a2", "é", "zz", "", "héllo", "B", "10", "x y", "k"}
+var words = []string{"a", "b", "c", "a2", "é", "zz", "", "héllo", "B", "10", "x y", "k", "a\u0001b", "bell\a", "del\u007f", "tab\there", "nl\n", "q\"uote", "<a>&", "\u2028", "\U0001F600", "back\\slash", "\u0080"}
 
 func str(r *Rng) string {
 	if r.Chance(1, 5) {
@@ -187,6 +188,33 @@ func Doc(r *Rng) string {
 		}
 	}
 	d["nested"] = nested
+	mkObj := func() interface{} {
+		t := make([]interface{}, r.Intn(3))
+		for j := range t {
+			t[j] = num(r)
+		}
+		return map[string]interface{}{"k": num(r), "s": str(r), "t": t}
+	}
+	grid := make([]interface{}, 1+r.Intn(4))
+	for i := range grid {
+		row := make([]interface{}, r.Intn(5))
+		for j := range row {
+			row[j] = mkObj()
+		}
+		grid[i] = row
+	}
+	d["grid"] = grid
+	var mkTree func(depth int) interface{}
+	mkTree = func(depth int) interface{} {
+		kids := []interface{}{}
+		if depth < 3 {
+			for i := r.Intn(3); i > 0; i-- {
+				kids = append(kids, mkTree(depth+1))
+			}
+		}
+		return map[string]interface{}{"name": str(r), "kids": kids}
+	}
+	d["tree"] = mkTree(0)
 	o1 := map[string]interface{}{"a": num(r), "b": map[string]interface{}{"c": []interface{}{num(r), num(r)}}}
 	for i := r.Intn(4); i > 0; i-- {
 		o1[fmt.Sprintf("m%d", r.Intn(6))] = num(r)
@@ -503,9 +531,88 @@ func (g *G) Any() string {
 	}
 }
 
+var constExprs = []string{
+	"[`1`, `2`]", "{a: `1`, b: 'x'}", "[`1`]", "{kind: `\"item\"`}", "['a', 'b']", "[`[3,1,2]`]", "{a: `{\"x\":[2,1]}`}", "length(`[1,2]`)", "sort(`[3,1,2]`)", "sort_by(`[3,1,2]`, &@)",
+	"merge(`{\"a\":1}`, `{\"b\":2}`)", "keys(`{\"a\":1,\"b\":2}`)", "values(`{\"a\":1,\"b\":2}`)", "reverse('abc')", "reverse(`[3,1,2]`)", "abs(`-1`)", "abs('x')", "sort(`[1,\"a\"]`)",
+	"to_array(`1`)", "to_array('s')", "not_null(`null`, `1`)", "join('-', `[\"a\",\"b\"]`)", "max(`[1,3,2]`)", "type(`{}`)", "to_string(`[1]`)", "to_number('3')", "contains(`[1,2]`, `2`)", "`[1,2,3]`[?@ > `1`]",
+	"`[3,1,2]`[0]", "`{\"a\":{\"b\":1}}`.a.b", "`[[1,2],[3]]`[]", "`[3,1,2]`[::-1]", "`{\"a\":1}`.*", "[`1`, 'a', `null`]", "{a: `null`}", "map(&@, `[1,2]`)", "[to_array(`1`), to_array(`2`)]", "avg(`[]`)",
+}
+
+// ConstEmbed places an expression that does not look at the document (literals, calls
+// on literals) where the current node may be null, projected, or ordinary: an
+// implementation that pre-evaluates constants must still honour "multi-select on null
+// is null", "projection drops nulls" and error propagation.
+func ConstEmbed(r *Rng) string {
+	c := r.Pick(constExprs)
+	dotable := strings.HasPrefix(c, "[") && !strings.HasPrefix(c, "[to_array") || strings.HasPrefix(c, "{") || (c[0] >= 'a' && c[0] <= 'z')
+	pre := r.Pick([]string{"z", "missing", "missing.x", "objs[*].z", "objs[*].t", "objs[*]", "nums[*]", "o1", "o1.b", "@", "objs[0]", "nested[]", "e", "eo", "objs[?k > `100`]", "mixed[*].k", "n", "s"})
+	switch r.Intn(6) {
+	case 0:
+		return c
+	case 1, 2:
+		if dotable {
+			return pre + "." + c
+		}
+		return pre + " | " + c
+	case 3:
+		return pre + " | " + c
+	case 4:
+		return "[" + pre + ", " + c + "]"
+	default:
+		return pre + " && " + c + " || " + c
+	}
+}
+
+// Chain draws a type-unaware postfix chain over the nested parts of the schema: index,
+// slice, list projection, flatten, filter, object projection, field, pipe — in every
+// order, e.g. grid[0][*].k, grid | [-1][*].t[], tree.kids[0].kids[*].name,
+// nested[3][*][0], map(&[0][*].k, [grid]).
+func Chain(r *Rng) string {
+	e := r.Pick([]string{"grid", "grid", "grid", "nested", "nested", "tree.kids", "tree", "objs", "[grid, grid]", "objs[*].t", "o1", "@"})
+	n := 1 + r.Intn(5)
+	for i := 0; i < n; i++ {
+		switch r.Intn(16) {
+		case 0, 1, 2:
+			e += "[" + fmt.Sprint(r.Intn(5)-2) + "]"
+		case 3, 4, 5:
+			e += "[*]"
+		case 6:
+			e += "[]"
+		case 7:
+			e += "[" + (&G{R: r}).slice() + "]"
+		case 8:
+			e += "[?" + r.Pick([]string{"k", "k > `1`", "@", "t", "kids", "length(@) > `1`", "s == 'a'", "name"}) + "]"
+		case 9, 10:
+			e += "." + r.Pick([]string{"k", "s", "t", "kids", "name", "a", "b"})
+		case 11:
+			e += ".*"
+		case 12:
+			e += " | " + r.Pick([]string{"[0]", "[-1]", "[*]", "[]", "@", "[0][*]", "[1:]"})
+		case 13:
+			e += "." + r.Pick([]string{"[k, s]", "{x: k, y: t}", "[@, @]"})
+		case 14:
+			e = r.Pick([]string{"map(&", "sort_by(", "max_by(", "min_by("}) + r.Pick([]string{"k", "t", "[0]", "length(@)", "name", "[0][*].k", "[*][0]"})
+			if strings.HasPrefix(e, "map") {
+				e += ", " + r.Pick([]string{"grid", "grid[0]", "nested", "[grid]", "tree.kids", "objs"}) + ")"
+			} else {
+				e = strings.Replace(e, "(", "("+r.Pick([]string{"grid", "grid[0]", "nested", "[grid]", "tree.kids", "objs"})+", &", 1) + ")"
+			}
+		default:
+			e = r.Pick([]string{"reverse(", "to_array(", "not_null(", "length(", "sort(", "merge("}) + e + ")"
+		}
+	}
+	return e
+}
+
 // Expr draws one expression: mostly well-typed, sometimes deliberately ill-typed so
 // that error paths are reached after work has started.
 func Expr(r *Rng) string {
+	if r.Chance(1, 4) {
+		return Chain(r)
+	}
+	if r.Chance(1, 8) {
+		return ConstEmbed(r)
+	}
 	g := &G{R: r}
 	e := g.Any()
 	if r.Chance(1, 10) {
@@ -544,6 +651,11 @@ func Systematic() []string {
 		"objs[?k > `1`]", "objs[?k > `1`].s", "objs[?s == 'a']", "nums[?@ > `1`]", "[nums, strs]", "{a: nums, b: o1}", "nums", "@", "o1.b.c", "objs[0]", "objs[-1].t",
 		"`[3,1,2]`", "`{\"a\":[2,1]}`.a", "z", "missing", "nums || strs", "z || objs", "nums && objs", "!nums", "nums == nums", "objs[0] == objs[1]", "o1 != o2",
 		"unknown_fn(nums)", "length(nums, nums)", "sort_by(objs)", "nums[0].x.y", "s[0]", "s.x", "n[?@]", "t.*",
+		"grid[0][*].k", "grid[-1][*].s", "grid[0][*]", "grid | [0][*].k", "grid[*][0]", "grid[*][*].k", "grid[][*]", "grid[].k", "grid[0][*].t[]", "grid[1][?k > `1`]", "grid[0][1:].k", "grid[0][].k", "grid[0][::-1].s",
+		"map(&[0][*].k, [grid])", "nested[3][*][0]", "nested[-1][*][0]", "nested[0][*]", "tree.kids[0].kids[*].name", "tree.kids[*].kids[*].name", "tree.kids[].kids[].name", "objs[0].t[*]", "objs[1].t[*].abs(@)", "[nums][0][*].abs(@)",
+		"grid[0][*].merge(@, `{}`)", "grid[0][*].t", "grid[0][*].[k]", "grid[0][*].{a: k}", "sort_by(grid[0], &k)", "sort_by(grid, &length(@))", "grid[0] | sort_by(@, &s)", "reverse(grid[0])", "grid[*].sort_by(@, &k)", "grid[*][*].t[]",
+		"z.{a: `1`}", "missing.[`1`, `2`]", "z.[`1`]", "objs[*].z.[`1`]", "objs[*].t.[`1`, `2`]", "nums[*].{x: 'c'}", "z | {a: `1`}", "z | [`1`]", "[`1`, `2`]", "{a: `1`}", "missing.{kind: `\"item\"`}", "objs[*].[`1`, `2`]",
+		"z.length(`[1]`)", "z | length(`[1]`)", "objs[*].length(`[1]`)", "z.[k]", "z.{a: k}", "z.[@]", "objs[*].z.{a: @}",
 		"contains(s, `1`)", "sort_by(mixeds, &k)", "max_by(mixeds, &k)", "min_by(mixeds, &k)", "max_by(objs, &abs(s))", "min_by(objs, &abs(s))", "sort_by(objs, &abs(s))",
 		"min_by(objs, &s)", "max_by(objs, &s)", "min_by(mixed, &abs(k))", "max_by(mixed, &abs(k))", "objs[?abs(s)]", "objs[?k].abs(s)", "objs[*].abs(s)", "abs(s).*", "*.abs(@)", "o1.*.abs(@)",
 		"sort_by(mixeds, &abs(k))", "sort_by(strs, &abs(@))", "max(e)", "min(e)", "map(&abs(@), strs)", "nums[?abs(s)]", "[abs(s)]", "{a: abs(s)}", "abs(s) || nums", "abs(s) && nums", "!abs(s)", "abs(s) | nums", "abs(s) == nums", "nums[abs(s)]",
@@ -589,6 +701,13 @@ func Systematic() []string {
 		add(u)
 	}
 	return out
+}
+
+// DeepExprs are pathologically nested inputs (valid and invalid).
+var DeepExprs = []string{
+	strings.Repeat("[", 700), strings.Repeat("(", 700), strings.Repeat("(", 300) + "a" + strings.Repeat(")", 300), strings.Repeat("(", 300) + "a" + strings.Repeat(")", 299),
+	"a" + strings.Repeat(".b", 400), "a" + strings.Repeat("[0]", 400), strings.Repeat("!", 500) + "a", strings.Repeat("&", 400) + "a", strings.Repeat("f(", 300) + "a" + strings.Repeat(")", 300),
+	strings.Repeat("f(", 300) + "a", strings.Repeat("[a, ", 300), strings.Repeat("{a: ", 300), "a" + strings.Repeat(" | b", 400), "a" + strings.Repeat(" || b", 400), strings.Repeat("[?", 300),
 }
 
 // BrokenExprs are expressions that fail to compile, used as failing operations.
